@@ -26,6 +26,8 @@ struct Case
     unsigned nthreads;
     int pre;     // call made on the same object BEFORE the measured one (non-initial object state): 0 none, 1/2 extendPol with another N, 3 NTT of the full domain
     int team0;   // OpenMP default team size in force when the case starts (0: the process default)
+    int xt;      // 1: forward transform called with the trailing flag extend = true (documented for the inverse only; a forward call ignores it)
+    int cp;      // 1: the measured call is made on a COPY of the object (copy-constructed; the copy is never destroyed, the pinned tree's implicit copy shares the tables)
     int mis;     // 1: source, destination and scratch buffer start one element later relative to their natural alignment (addresses 8 mod 16 where the default is 0 mod 16 and vice versa); one sentinel element of slack at the end instead of the exact end
     int outer;   // > 0: the call is made by each of `outer` threads of a parallel region of the CALLER, every thread on its own object and buffers
     int plant;   // 0: impulse basis + dense input; 1/2: boundary values planted at a stage of the pipeline (see run_case_planted)
@@ -33,7 +35,7 @@ struct Case
 static std::string casestr(const Case &c)
 {
     return fmt("mode=%s D=%llu n=%llu next=%llu ncols=%llu nphase=%s nblock=%s buf=%d dst=%d nthreads=%u pre=%d", mname[c.mode], (unsigned long long)c.D, (unsigned long long)c.n,
-               (unsigned long long)c.next, (unsigned long long)c.ncols, hex(c.nphase).c_str(), hex(c.nblock).c_str(), c.buf, c.dst, c.nthreads, c.pre) + (c.team0 ? fmt(" team0=%d", c.team0) : std::string()) + (c.outer ? fmt(" outer=%d", c.outer) : std::string()) + (c.mis ? " mis=1" : "") + (c.plant ? fmt(" plant=%d", c.plant) : std::string());
+               (unsigned long long)c.next, (unsigned long long)c.ncols, hex(c.nphase).c_str(), hex(c.nblock).c_str(), c.buf, c.dst, c.nthreads, c.pre) + (c.team0 ? fmt(" team0=%d", c.team0) : std::string()) + (c.outer ? fmt(" outer=%d", c.outer) : std::string()) + (c.mis ? " mis=1" : "") + (c.xt ? " xt=1" : "") + (c.cp ? " cp=1" : "") + (c.plant ? fmt(" plant=%d", c.plant) : std::string());
 }
 static int g_team0; // OpenMP default team size at start-up: restored before every case, so that a case never depends on the cases the same worker ran before
 static unsigned lg(u64 x) { return nttor::lg(x); }
@@ -322,9 +324,10 @@ static void run_case(const Case &c)
         if (ms) { src.p[srclen].fe = SLACK; dst.p[ndst + 1].fe = SLACK; buf.p[ndst].fe = SLACK; }
         E *d = (c.dst == 0) ? src.p : (c.dst == 1 ? dst.p + 1 : nullptr);
         E *b = c.buf ? buf.p : nullptr;
-        if (c.mode == M_NTT) ntt.NTT(d, src.p, n, ncols, b, c.nphase, c.nblock);
-        else if (c.mode == M_INTT) ntt.INTT(d, src.p, n, ncols, b, c.nphase, c.nblock);
-        else ntt.extendPol(d, src.p, nout, n, ncols, b, c.nphase, c.nblock);
+        NTT_Goldilocks &obj = c.cp ? *new NTT_Goldilocks(ntt) : ntt; // the copy is leaked on purpose (see Case::cp)
+        if (c.mode == M_NTT) { if (c.xt) obj.NTT(d, src.p, n, ncols, b, c.nphase, c.nblock, false, true); else obj.NTT(d, src.p, n, ncols, b, c.nphase, c.nblock); }
+        else if (c.mode == M_INTT) obj.INTT(d, src.p, n, ncols, b, c.nphase, c.nblock);
+        else obj.extendPol(d, src.p, nout, n, ncols, b, c.nphase, c.nblock);
         rep().stat("transitions");
         rep().stat("evaluations");
         const E *res = (c.dst == 1) ? dst.p + 1 : src.p;
@@ -370,7 +373,7 @@ static bool parse(const std::string &s, Case &c)
     for (int i = 0; i < NMODE; i++) if (mo == mname[i]) c.mode = i;
     if (c.mode < 0) return false;
     c.D = cu(m, "D"); c.n = cu(m, "n"); c.next = cu(m, "next"); c.ncols = cu(m, "ncols");
-    c.nphase = cu(m, "nphase"); c.nblock = cu(m, "nblock"); c.buf = (int)cu(m, "buf"); c.dst = (int)cu(m, "dst"); c.nthreads = (unsigned)cu(m, "nthreads"); c.pre = (int)cu(m, "pre"); c.plant = (int)cu(m, "plant", 0); c.team0 = (int)cu(m, "team0", 0); c.outer = (int)cu(m, "outer", 0); c.mis = (int)cu(m, "mis", 0);
+    c.nphase = cu(m, "nphase"); c.nblock = cu(m, "nblock"); c.buf = (int)cu(m, "buf"); c.dst = (int)cu(m, "dst"); c.nthreads = (unsigned)cu(m, "nthreads"); c.pre = (int)cu(m, "pre"); c.plant = (int)cu(m, "plant", 0); c.team0 = (int)cu(m, "team0", 0); c.outer = (int)cu(m, "outer", 0); c.mis = (int)cu(m, "mis", 0); c.xt = (int)cu(m, "xt", 0); c.cp = (int)cu(m, "cp", 0);
     return true;
 }
 static void report_crash(const Case &c, const ChildResult &r)
@@ -601,6 +604,22 @@ int main(int argc, char **argv)
                 std::string k = casestr(d);
                 if (seen.insert(k).second) extra.push_back(d);
             }
+            // rarely used variants of the same call: the trailing extend flag on a forward transform, a copied object
+            if (c.mode == M_NTT)
+                for (int pre : {0, 1})
+                {
+                    Case d = c;
+                    d.xt = 1;
+                    d.pre = pre;
+                    std::string k = casestr(d);
+                    if (seen.insert(k).second) extra.push_back(d);
+                }
+            {
+                Case d = c;
+                d.cp = 1;
+                std::string k = casestr(d);
+                if (seen.insert(k).second) extra.push_back(d);
+            }
             // the default team size of the environment is not the library's to assume: the same call under other defaults
             for (int t0 : {3, 7})
             {
@@ -642,7 +661,7 @@ int main(int argc, char **argv)
                             for (int buf = 0; buf < 2; buf++)
                                 for (int outer : {2, 3})
                                 {
-                                    Case c = {mode, n, mode == M_EXT ? n / 2 : n, mode == M_EXT ? n : 0, ncols, ph, bl, buf, dst, (unsigned)(outer == 2 ? 3 : 1), 0, 0, 0, outer, 0};
+                                    Case c = {mode, n, mode == M_EXT ? n / 2 : n, mode == M_EXT ? n : 0, ncols, ph, bl, buf, dst, (unsigned)(outer == 2 ? 3 : 1), 0, 0, 0, 0, 0, outer, 0};
                                     cases.push_back(c);
                                     added++;
                                 }
@@ -663,7 +682,7 @@ int main(int argc, char **argv)
                                 if (mode != M_EXT && e != 2) continue;
                                 if (!th && n == 16 && (ph != 3 || bl != 1)) continue;
                                 unsigned t = (ph == 3 && bl == 1) ? 3 : 1;
-                                Case c = {mode, mode == M_EXT ? n : n, n, mode == M_EXT ? n * e : 0, ncols, ph, bl, 0, 1, t, 0, 0, 0, 0, plant};
+                                Case c = {mode, mode == M_EXT ? n : n, n, mode == M_EXT ? n * e : 0, ncols, ph, bl, 0, 1, t, 0, 0, 0, 0, 0, 0, plant};
                                 cases.push_back(c);
                                 added++;
                             }
